@@ -28,10 +28,13 @@ COMPONENT = {
  "C19": comp("C19", "§7 C19", "MemStorage as snapshot point + compaction point + contiguous entries with the documented errors.", "MemStorage.tla", "MC_MemStorage"),
 }
 NOT_APPLICABLE = {}
-LEVEL = {}
+MC_PIDS = ['C01','C02','C03','C04','C05','C06','C07','C13','C16','C20']
+LEVEL = {p: 'model_checking' for p in MC_PIDS}
 LEVEL_TEXT = {}
-TECHNIQUE = {}
+TECHNIQUE = {p: 'explicit TLA+ specification (RaftRs/Node/RawNodeOps) model-checked by TLC with the property predicates evaluated on every transition; TLC schedules replayed on the real code and recorded real executions trace-validated against the specification, predicates judged by TLC' for p in MC_PIDS}
 ENGINES = [
+ {"name": "tlc-mc", "path": "spec/MC/MC_core.tla", "serves_properties": MC_PIDS,
+  "kind_free_text": "TLC model checking of spec/RaftRs.tla (bounds in spec/MC/MC_*.cfg) with schedule printing; maximal schedules replayed on the real RawNode cluster by harness/simrun replaymc and judged through spec/Trace.tla"},
  {"name": "tlc-vectors", "path": "spec/MC", "serves_properties": ["C11", "C12", "C14", "C18", "C19"],
   "kind_free_text": "TLC enumeration of component specifications printing JSON vectors; harness/compreplay replays them on the real structures"},
 ]
